@@ -30,6 +30,7 @@ PreClass(st, k) ==
 D(line, e, pre, field, want, got) ==
     [line |-> line, i |-> e.i, op |-> e.a.op, k |-> e.a.k, pre |-> pre, field |-> field,
      want |-> ToString(want), got |-> ToString(got), shape |-> e.a.shape, ld |-> e.a.ld,
+     anydead |-> IF \E kk \in Keys(s) : Dead(s, kk) THEN 1 ELSE 0,
      cfg |-> <<s.cfg.size, s.cfg.expiry, s.cfg.refresh>>]
 
 AEvents(e, h) == LET q == SelectSeq(e.ev, LAMBDA x : x.h = h)
@@ -105,8 +106,9 @@ FieldDevs(line, e, pre, o) ==
         \o chk("rrs", NormRRSpec(o.rrs), {x \in NormRR(e.rrs) : x.k \in {y.k : y \in o.rrs}}) \o chk("num", o.num, e.num)
 
 \* projection through GetEntryQuietly, one key
-ProjDevs(line, e, pre, st, k, refany) ==
+ProjDevs(line, e, pre0, st, k, refany) ==
     LET lg == e.proj[k + 1]
+        pre == PreClass(s, k)
         vis == Live(st, k)
         m == st.ent[k]
     IN IF (lg.p = 1) # vis THEN <<D(line, e, pre, "proj.p", [k |-> k, p |-> IF vis THEN 1 ELSE 0], [k |-> k, p |-> lg.p])>>
@@ -117,9 +119,9 @@ ProjDevs(line, e, pre, st, k, refany) ==
             \o (IF lg.ref # m.ref /\ k \notin refany
                 THEN <<D(line, e, pre, "proj.ref", [k |-> k, ref |-> m.ref], [k |-> k, ref |-> lg.ref])>> ELSE <<>>)
 RECURSIVE AllProjDevs(_, _, _, _, _, _)
-AllProjDevs(line, e, pre, st, k, refany) ==
+AllProjDevs(line, e, pre0, st, k, refany) ==
     IF k >= st.cfg.nk THEN <<>>
-    ELSE ProjDevs(line, e, pre, st, k, refany) \o AllProjDevs(line, e, pre, st, k + 1, refany)
+    ELSE ProjDevs(line, e, pre0, st, k, refany) \o AllProjDevs(line, e, pre0, st, k + 1, refany)
 
 Resync(st, e) ==
     [st EXCEPT !.ent = [k \in Keys(st) |->
